@@ -335,11 +335,4 @@ def opHist (line : String) : Option String := do
       else none
     | _ => none
 
-def dispatch (line : String) : String :=
-  let line := line.trimAscii.toString
-  match line.splitOn " " with
-  | "search" :: rest => (opSearch rest).getD "bad-op"
-  | "hist" :: _ => (opHist (line.drop 5).toString).getD "bad-op"
-  | _ => "bad-op"
-
 end Art.Drv
